@@ -10,6 +10,7 @@ import (
 	"os"
 	"os/exec"
 	"strings"
+	"sync/atomic"
 	"time"
 )
 
@@ -31,6 +32,8 @@ type SolverStats struct {
 	CacheHits int
 	Seconds   float64
 	Errors    int
+	Fallbacks int
+	FallbackDecided int
 }
 
 type Solver struct {
@@ -39,13 +42,10 @@ type Solver struct {
 	in      io.WriteCloser
 	out     *bufio.Reader
 	tt      *TermTable
-	levels  []map[int]bool // defined term ids per push level
-	declV   []map[string]bool
 	timeout int // ms per query
 	Stats   SolverStats
 	log     io.Writer
 	dead    bool
-	pendingPop bool
 }
 
 func solverArgv(name string, timeoutMs int) []string {
@@ -85,13 +85,10 @@ func (s *Solver) start() error {
 	}
 	s.in = in
 	s.out = bufio.NewReaderSize(out, 1<<16)
-	s.levels = []map[int]bool{{}}
-	s.declV = []map[string]bool{{}}
 	s.dead = false
 	if s.name == "cvc5" {
 		s.send("(set-logic ALL)")
 	}
-	s.send("(set-option :produce-models true)")
 	return nil
 }
 
@@ -107,6 +104,9 @@ func (s *Solver) restart() {
 	s.Close()
 	s.start()
 }
+
+var slowDir = os.Getenv("VERIF_SLOWQ")
+var slowN int32
 
 func (s *Solver) send(line string) {
 	if s.log != nil {
@@ -155,124 +155,97 @@ func (s *Solver) readSexp() string {
 	return sb.String()
 }
 
-func (s *Solver) Push() {
-	s.send("(push 1)")
-	s.levels = append(s.levels, map[int]bool{})
-	s.declV = append(s.declV, map[string]bool{})
-}
-
-func (s *Solver) Pop() {
-	s.send("(pop 1)")
-	s.levels = s.levels[:len(s.levels)-1]
-	s.declV = s.declV[:len(s.declV)-1]
-}
-
-func (s *Solver) Depth() int { return len(s.levels) - 1 }
-
-func (s *Solver) isDefined(id int) bool {
-	for _, l := range s.levels {
-		if l[id] {
-			return true
+// Query decides the conjunction of asserts (plus raw SMT-LIB assertions) in a
+// fresh solver context: z3's non-incremental (tactic) mode decides the
+// multiplier-heavy queries an order of magnitude faster than push/pop mode
+// (measured), so every query is self-contained: (reset), declarations and
+// definitions of the cone of influence, assertions, (check-sat).
+func (s *Solver) Query(asserts []*Term, raw []string, vars []*Term) (SatResult, Model) {
+	var sb strings.Builder
+	sb.WriteString("(reset)\n(set-option :produce-models true)\n")
+	declared := map[string]bool{}
+	defined := map[int]bool{}
+	declare := func(v *Term) {
+		if !declared[v.Name] {
+			declared[v.Name] = true
+			fmt.Fprintf(&sb, "(declare-const %s %s)\n", smtName(v.Name), v.Sort)
 		}
 	}
-	return false
-}
-
-func (s *Solver) isDeclared(n string) bool {
-	for _, l := range s.declV {
-		if l[n] {
-			return true
+	nameOf := func(a *Term) string {
+		switch a.Op {
+		case OConst:
+			return constSMT(a)
+		case OVar:
+			return smtName(a.Name)
 		}
+		return fmt.Sprintf("t%d", a.id)
 	}
-	return false
-}
-
-// ref returns the SMT text naming term t, emitting declarations/definitions
-// as needed at the current level.
-func (s *Solver) ref(t *Term) string {
-	switch t.Op {
-	case OConst:
-		return constSMT(t)
-	case OVar:
-		if !s.isDeclared(t.Name) {
-			s.send(fmt.Sprintf("(declare-const %s %s)", smtName(t.Name), t.Sort))
-			s.declV[len(s.declV)-1][t.Name] = true
-		}
-		return smtName(t.Name)
-	}
-	name := fmt.Sprintf("t%d", t.id)
-	if s.isDefined(t.id) {
-		return name
-	}
-	// iterative post-order to avoid deep recursion
 	type item struct {
 		t    *Term
 		done bool
 	}
-	stack := []item{{t, false}}
-	for len(stack) > 0 {
-		it := stack[len(stack)-1]
-		stack = stack[:len(stack)-1]
-		x := it.t
-		if x.Op == OConst || s.isDefined(x.id) {
-			continue
-		}
-		if x.Op == OVar {
-			s.ref(x)
-			continue
-		}
-		if !it.done {
-			stack = append(stack, item{x, true})
-			for _, a := range x.A {
-				stack = append(stack, item{a, false})
+	emit := func(t *Term) {
+		stack := []item{{t, false}}
+		for len(stack) > 0 {
+			it := stack[len(stack)-1]
+			stack = stack[:len(stack)-1]
+			x := it.t
+			if x.Op == OConst || defined[x.id] {
+				continue
 			}
-			continue
-		}
-		if x.Op == OUF && !s.isDeclared("uf:"+x.Name) {
-			var as []string
-			for _, a := range x.A {
-				as = append(as, a.Sort.String())
+			if x.Op == OVar {
+				declare(x)
+				continue
 			}
-			s.send(fmt.Sprintf("(declare-fun %s (%s) %s)", smtName(x.Name), strings.Join(as, " "), x.Sort))
-			s.declV[len(s.declV)-1]["uf:"+x.Name] = true
-		}
-		body := smtNode(x, func(a *Term) string {
-			switch a.Op {
-			case OConst:
-				return constSMT(a)
-			case OVar:
-				return smtName(a.Name)
+			if !it.done {
+				stack = append(stack, item{x, true})
+				for _, a := range x.A {
+					stack = append(stack, item{a, false})
+				}
+				continue
 			}
-			return fmt.Sprintf("t%d", a.id)
-		})
-		s.send(fmt.Sprintf("(define-fun t%d () %s %s)", x.id, x.Sort, body))
-		s.levels[len(s.levels)-1][x.id] = true
+			if x.Op == OUF && !declared["uf:"+x.Name] {
+				declared["uf:"+x.Name] = true
+				var as []string
+				for _, a := range x.A {
+					as = append(as, a.Sort.String())
+				}
+				fmt.Fprintf(&sb, "(declare-fun %s (%s) %s)\n", smtName(x.Name), strings.Join(as, " "), x.Sort)
+			}
+			fmt.Fprintf(&sb, "(define-fun t%d () %s %s)\n", x.id, x.Sort, smtNode(x, nameOf))
+			defined[x.id] = true
+		}
 	}
-	return name
-}
-
-func (s *Solver) Assert(t *Term) {
-	r := s.ref(t)
-	s.send(fmt.Sprintf("(assert %s)", r))
-}
-
-// Check runs check-sat under the current assertions plus extra (scoped).
-func (s *Solver) Check(extra ...*Term) SatResult {
-	refs := make([]string, len(extra))
-	for i, e := range extra {
-		refs[i] = s.ref(e)
-	}
-	if len(extra) > 0 {
-		s.send("(push 1)")
-		for _, r := range refs {
-			s.send(fmt.Sprintf("(assert %s)", r))
+	if len(raw) > 0 {
+		for _, v := range vars {
+			declare(v)
 		}
+	}
+	for _, a := range asserts {
+		emit(a)
+		fmt.Fprintf(&sb, "(assert %s)\n", nameOf(a))
+	}
+	for _, r := range raw {
+		fmt.Fprintf(&sb, "(assert %s)\n", r)
 	}
 	t0 := time.Now()
-	s.send("(check-sat)")
+	sb.WriteString("(check-sat)")
+	text := sb.String()
+	s.send(text)
+	wd := time.AfterFunc(time.Duration(s.timeout)*time.Millisecond+3*time.Second, func() {
+		if s.cmd != nil && s.cmd.Process != nil {
+			s.cmd.Process.Kill()
+		}
+	})
 	res := s.readResult()
+	wd.Stop()
+	dt := time.Since(t0)
+	if slowDir != "" && dt > 3*time.Second {
+		n := atomic.AddInt32(&slowN, 1)
+		os.WriteFile(fmt.Sprintf("%s/slow-%d-%s-%.0fs.smt2", slowDir, n, res, dt.Seconds()), []byte(text+"\n"), 0o644)
+	}
 	s.Stats.Queries++
-	s.Stats.Seconds += time.Since(t0).Seconds()
+	s.Stats.Seconds += dt.Seconds()
 	switch res {
 	case Sat:
 		s.Stats.Sat++
@@ -281,11 +254,76 @@ func (s *Solver) Check(extra ...*Term) SatResult {
 	default:
 		s.Stats.UnknownN++
 	}
-	if len(extra) > 0 {
-		// caller may want a model: keep the scope until EndCheck
-		s.pendingPop = true
+	var m Model
+	var vs []*Term
+	for _, v := range vars {
+		if declared[v.Name] {
+			vs = append(vs, v)
+		}
 	}
-	return res
+	if res == Sat {
+		m = s.getModel(vs)
+	}
+	if s.dead {
+		s.restart()
+		res = Unknown
+	}
+	if res == Unknown && s.name != "cvc5" && !noFallback {
+		// portfolio: ask cvc5 (one-shot process) before giving up
+		r2, m2 := fallbackCVC5(text, vs, s.timeout)
+		s.Stats.Fallbacks++
+		if r2 != Unknown {
+			s.Stats.UnknownN--
+			s.Stats.FallbackDecided++
+			return r2, m2
+		}
+	}
+	return res, m
+}
+
+var noFallback = os.Getenv("VERIF_NO_FALLBACK") != ""
+
+func fallbackCVC5(text string, vs []*Term, timeoutMs int) (SatResult, Model) {
+	body := strings.TrimPrefix(text, "(reset)\n(set-option :produce-models true)\n")
+	var sb strings.Builder
+	sb.WriteString("(set-logic ALL)\n")
+	sb.WriteString(body)
+	sb.WriteString("\n")
+	if len(vs) > 0 {
+		names := make([]string, len(vs))
+		for i, v := range vs {
+			names[i] = smtName(v.Name)
+		}
+		fmt.Fprintf(&sb, "(get-value (%s))\n", strings.Join(names, " "))
+	}
+	cmd := exec.Command("cvc5", "--lang=smt2", "--produce-models", "--fp-exp", fmt.Sprintf("--tlimit=%d", timeoutMs))
+	cmd.Stdin = strings.NewReader(sb.String())
+	out, _ := cmd.Output()
+	lines := strings.SplitN(string(out), "\n", 2)
+	switch strings.TrimSpace(lines[0]) {
+	case "unsat":
+		return Unsat, nil
+	case "sat":
+		m := Model{}
+		if len(lines) > 1 && len(vs) > 0 {
+			toks := tokenize(lines[1])
+			pos := 0
+			if pos < len(toks) && toks[pos] == "(" {
+				pos++
+				for i := 0; pos < len(toks) && toks[pos] == "(" && i < len(vs); i++ {
+					pos += 2
+					val, np := parseValue(toks, pos, vs[i].Sort)
+					pos = np
+					if pos < len(toks) && toks[pos] == ")" {
+						pos++
+					}
+					m[vs[i].Name] = val
+				}
+			}
+		}
+		return Sat, m
+	}
+	return Unknown, nil
 }
 
 func (s *Solver) readResult() SatResult {
@@ -318,36 +356,19 @@ func (s *Solver) readResult() SatResult {
 	}
 }
 
-// EndCheck pops the scope opened by Check(extra...).
-func (s *Solver) EndCheck() {
-	if s.pendingPop {
-		s.send("(pop 1)")
-		s.pendingPop = false
-	}
-}
-
-// GetModel fetches values for the given variables (after a Sat Check, before EndCheck).
-func (s *Solver) GetModel(vars []*Term) Model {
+// getModel fetches values for the given (declared) variables.
+func (s *Solver) getModel(vs []*Term) Model {
 	m := Model{}
-	if len(vars) == 0 {
-		return m
-	}
-	// only ask for declared variables
-	var names []string
-	var vs []*Term
-	for _, v := range vars {
-		if s.isDeclared(v.Name) {
-			names = append(names, smtName(v.Name))
-			vs = append(vs, v)
-		}
-	}
 	if len(vs) == 0 {
 		return m
+	}
+	names := make([]string, len(vs))
+	for i, v := range vs {
+		names[i] = smtName(v.Name)
 	}
 	s.send(fmt.Sprintf("(get-value (%s))", strings.Join(names, " ")))
 	resp := s.readSexp()
 	toks := tokenize(resp)
-	// ( ( name value ) ( name value ) ... )
 	pos := 0
 	expect := func(tk string) bool {
 		if pos < len(toks) && toks[pos] == tk {
